@@ -72,6 +72,8 @@ def obligations(cx):
     M1, M2 = var('M1'), var('M2')
     cfgs = [c for c in procs.configs(funcs=procs.FUNCS[2:], comp_types=('weight', 'molar')) if c.mode == 'vacuum' or (c.comp_type == 'weight' and not c.program)]
     if cx.tier == 'quick': cfgs = [c for c in cfgs if not (c.mode != 'vacuum' and c.curves == 'many')]
+    # initial permeances stated in other units: the models convert them, and it is the CONVERTED value that fixes the factor
+    cfgs += [procs.Config(f, 'vacuum', False, 'weight', 'one', True, init_units=u) for f in procs.FUNCS[2:] for u in (('SI',) if cx.tier == 'quick' else ('SI', 'GPU'))]
     for cfg in cfgs:
         tag = cfg.tag(); fn = 'Pervaporation.' + cfg.func
         pv, kw, ps = procs.run(cx, cfg)
@@ -92,7 +94,9 @@ def obligations(cx):
                 f = fits[i]; p0 = P0[0][i].f['value']
                 f00 = fval(f, x0m, T0)
                 if cfg.initial:
-                    cx.ob(t + ".P0.%d.user-supplied" % (i + 1), st.pc, eq(p0, var('Pi%d' % (i + 1))), function=fn, statement="step 0 uses the user-supplied initial permeance (already in kg units)")
+                    from .c12 import to_kg as _to_kg
+                    cx.ob(t + ".P0.%d.user-supplied" % (i + 1), st.pc, eq(p0, _to_kg(var('Pi%d' % (i + 1)), cfg.init_units, M1 if i == 0 else M2)), function=fn,
+                          statement="step 0 uses the user-supplied initial permeance, converted to kg/(m2 h kPa) with the component's own molar mass")
                 else:
                     cx.ob(t + ".P0.%d.from-fit" % (i + 1), st.pc, eq(p0, f00), function=fn, statement="no initial permeances: step 0 uses the fit at the initial mass fraction and temperature (factor 1)")
                 FR = p0 / f00
@@ -144,7 +148,7 @@ def obligations(cx):
           function='PervaporationFunction.__mul__', statement="f*c: fresh function with alpha*c sharing the coefficient lists a and b")
     cx.assume_note("hypothesis of C05: fitted alpha > 0 (otherwise the Permeance clamp intervenes)")
     cx.assume_note("find_best_fit / Measurements.from_diffusion_curves_* / PervaporationFunction.__call__ / calculate_activation_energy by contract (pure functions; C16, C07, C12)")
-    cx.assume_note("initial permeances are supplied in kg/(m2 h kPa) in the modelled configurations (conversion itself: C14)")
+    cx.assume_note("initial permeances in kg/(m2 h kPa) in most configurations; SI (thorough: and GPU) for one configuration per model")
     cx.no_hidden_state(function=None)
 
 
